@@ -11,6 +11,7 @@
 #include "zstd_compress_internal.h"
 #include "clevels.h"
 #include "zstdmt_compress.h"
+#include "zstd_ldm.h"
 #include "../lib/decompress/zstd_decompress_block.c"   /* LL_defaultDTable &c, LL_base &c */
 #include "gen_params.h"    /* generated from zstd.h: CP_LIST / DP_LIST */
 
@@ -97,6 +98,14 @@ int main(void) {
         size_t i; printf("\"compressBoundGrid\": [");
         for (i = 0; i < sizeof(g)/sizeof(g[0]); i++) printf("%s[%llu,%llu]", i?",":"", g[i], (unsigned long long)ZSTD_compressBound((size_t)g[i]));
         printf("],\n"); }
+    /* struct sizes and constants of the workspace budget (C14) */
+    printf("\"sizeof_ZSTD_CCtx\": %zu,\n", sizeof(ZSTD_CCtx)); printf("\"sizeof_blockState\": %zu,\n", sizeof(ZSTD_compressedBlockState_t));
+    printf("\"sizeof_seqDef\": %zu,\n", sizeof(seqDef)); printf("\"sizeof_rawSeq\": %zu,\n", sizeof(rawSeq)); printf("\"sizeof_ldmEntry\": %zu,\n", sizeof(ldmEntry_t));
+    printf("\"sizeof_ZSTD_Sequence\": %zu,\n", sizeof(ZSTD_Sequence)); printf("\"sizeof_ZSTD_match_t\": %zu,\n", sizeof(ZSTD_match_t)); printf("\"sizeof_ZSTD_optimal_t\": %zu,\n", sizeof(ZSTD_optimal_t));
+    printf("\"sizeof_ZSTD_DCtx\": %zu,\n", sizeof(ZSTD_DCtx));
+    C(TMP_WORKSPACE_SIZE); C(ZSTD_OPT_SIZE); C(Litbits); C(ZSTD_CWKSP_ALIGNMENT_BYTES); C(ZSTD_WORKSPACETOOLARGE_FACTOR); C(ZSTD_WORKSPACETOOLARGE_MAXDURATION);
+    C(ZSTD_LDM_DEFAULT_WINDOW_LOG); C(HUF_WORKSPACE_SIZE);
+    printf("\"cwksp_slack\": %zu,\n", ZSTD_cwksp_slack_space_required());
     printf("\"sizeof_size_t\": %u\n}\n", (unsigned)sizeof(size_t));
     return 0;
 }
